@@ -1,12 +1,15 @@
 /-
-Model of `NthChild` (/repo/src/selectors_vm/ast.rs:8-38): the `An+B` test of `:nth-child()` /
-`:nth-of-type()` on 32-bit two's-complement integers, with the exact wrapping operations of the Rust.
+Model of `NthChild` (/repo/src/selectors_vm/ast.rs:8-35, as of commit 614f5b5): the `An+B` test of
+`:nth-child()` / `:nth-of-type()`. The fields are `i32`; `has_index` widens `index`, `offset` and
+`step` to `i64` and computes there. The `i64` operations are modelled with explicit failure branches
+(arithmetic overflow panics in debug builds; `%` panics on a zero divisor and on `MIN % -1`), so that
+"never panics" is a theorem.
 
 How `step`/`offset` get their values (for the record; the model takes them as arbitrary `Int32`):
 `cssparser::parse_nth` (cssparser-0.36 src/nth.rs) returns `(i32, i32)`; integer tokens saturate to
 `i32::MIN ..= i32::MAX` (tokenizer.rs:1095-1102), `-n- 5`-style forms multiply a non-negative `b` by
 `-1` (no overflow), so *every* pair of `i32` is producible from selector text, including `i32::MIN`.
-`ast.rs:161-166` stores them unchanged: `NthChild::new(data.an_plus_b.0, data.an_plus_b.1)`.
+`ast.rs:158-163` stores them unchanged: `NthChild::new(data.an_plus_b.0, data.an_plus_b.1)`.
 The index is `ChildCounter.cumulative : i32` (stack.rs:53-73), which starts at 1 and is incremented
 once per sibling, so the implementation only ever calls `has_index` with `index ≥ 1`.
 -/
@@ -20,30 +23,38 @@ structure NthChild where
   offset : Int32
   deriving Repr, DecidableEq
 
-/-- `i32::wrapping_sub` — total, two's complement (`Int32` subtraction in Lean wraps). -/
-def wrappingSub (x y : Int32) : Int32 := x - y
+/-- `i64 - i64`: `none` = "attempt to subtract with overflow" (the mathematical difference does not
+fit in an `i64`). -/
+def checkedSub64 (x y : Int64) : Option Int64 :=
+  let r := x.toInt - y.toInt
+  if -(2 ^ 63) ≤ r ∧ r < 2 ^ 63 then some (x - y) else none
 
-/-- `i32::wrapping_rem`: panics iff the divisor is 0 (explicit failure branch); `MIN % -1 = 0`
-(Lean's `Int32` `%` is `BitVec.srem`, the truncating remainder, with `MIN.srem (-1) = 0`). -/
-def wrappingRem (x y : Int32) : Option Int32 :=
-  if y = 0 then none else some (x % y)
+/-- `i64 % i64`: `none` = panic (zero divisor, or `i64::MIN % -1` overflow). Lean's `Int64` `%` is
+`BitVec.srem`, the truncating remainder Rust uses. -/
+def checkedRem64 (x y : Int64) : Option Int64 :=
+  if y = 0 then none
+  else if x = Int64.minValue ∧ y = -1 then none
+  else some (x % y)
 
-/-- ast.rs:21-37 `NthChild::has_index`; `none` = panic (division by zero in `wrapping_rem`). -/
+/-- ast.rs:21-34 `NthChild::has_index`; `none` = panic. -/
 def hasIndex (nth : NthChild) (index : Int32) : Option Bool :=
   let offset := nth.offset
-  let step := nth.step
-  -- ast.rs:25
-  let offsetted := wrappingSub index offset
-  -- ast.rs:26-27
-  if step = 0 then
-    some (offsetted == 0)
-  -- ast.rs:28-29
-  else if (offsetted < 0 && step > 0) || (offsetted > 0 && step < 0) then
-    some false
-  else
-    -- ast.rs:35
-    match wrappingRem offsetted step with
-    | none => none
-    | some r => some (r == 0)
+  -- ast.rs:25 `let offsetted = index as i64 - offset as i64;`
+  match checkedSub64 index.toInt64 offset.toInt64 with
+  | none => none
+  | some offsetted =>
+    -- ast.rs:26 `let step = step as i64;`
+    let step := nth.step.toInt64
+    -- ast.rs:27-28
+    if step = 0 then
+      some (offsetted == 0)
+    -- ast.rs:29-30
+    else if (offsetted < 0 && step > 0) || (offsetted > 0 && step < 0) then
+      some false
+    else
+      -- ast.rs:32
+      match checkedRem64 offsetted step with
+      | none => none
+      | some r => some (r == 0)
 
 end LolHtml.Model.Nth
